@@ -17,7 +17,7 @@
 \*            gen:seqf (Serial + failing write), legacy:conc2f
 \*            mc:guess (Guess = TRUE), mc:conc3x2 (2 calls/process, no lookup process), mc:conc2:2names (+ failing
 \*            write), mc:seq:3ops, mc:spell:3ops
-\* Invariants: OneOwner RouteOK OwnerOnly LockHeld OnlyHolderUnlocks LookupPure RegisterAtomic Consistent Claimable NoIndexTheft; configurations with legacy mappings
+\* Invariants: OneOwner RouteOK OwnerOnly LockHeld OnlyHolderUnlocks LookupPure ListPure RegisterAtomic Consistent Claimable NoIndexTheft; configurations with legacy mappings
 \* use OneOwnerX / RouteOKX (the two legacy deviations are recorded known findings and must not hide other routes).
 CONSTANTS
   ProcsC1 = @@P1@@
@@ -40,6 +40,8 @@ CONSTANTS
   OnlyCreate = @@ONLYCRE@@
   Deviate = @@DEVIATE@@
   DelFaults = @@DELFAULTS@@
+  CreateFaults = @@CREFAULTS@@
+  OnlyList = @@ONLYLIST@@
   Emit = @@EMIT@@
 INIT Init
 NEXT Next
